@@ -456,6 +456,8 @@ var hostileSlow bool
 func scenHostile(rng *rand.Rand, tr *sim.Trace, seg int, events int) {
 	o := opts{burst: -1, passive: rng.Intn(6) == 0, hook: rng.Intn(3) == 0, peerstore: rng.Intn(2) == 0, announcecb: rng.Intn(2) == 0,
 		secure: rng.Intn(2) == 0, resend: func() time.Duration { return 20 * time.Millisecond }}
+	o.customAddr = rng.Intn(4) == 0
+	o.zones = !o.customAddr && rng.Intn(3) == 0
 	slow := hostileSlow
 	if slow {
 		// replies wait for a send budget that refills very slowly: the node must go on serving meanwhile
